@@ -77,12 +77,22 @@ func (b Bonder) Bond(ctx context.Context, mutable state.Mutable, tx *chain.Trans
 		return false, nil
 	}
 
+	txID := tx.GetID()
+	alreadyBonded, err := b.db.Has(txID[:])
+	if err != nil {
+		return false, fmt.Errorf("failed to check tx fee: %w", err)
+	}
+	if alreadyBonded {
+		// The bond of this transaction is already accounted for. Bonding it
+		// again would count its fee twice, while [Unbond] releases it once.
+		return true, nil
+	}
+
 	batch := b.db.NewBatch()
 	if err := putPendingBalance(batch, addressBytes, updatedBalance); err != nil {
 		return false, err
 	}
 
-	txID := tx.GetID()
 	if err := batch.Put(txID[:], binary.BigEndian.AppendUint64(nil, fee)); err != nil {
 		return false, fmt.Errorf("failed to write tx fee: %w", err)
 	}
